@@ -171,6 +171,22 @@ def run_c18(ctx, rng, job):
               ctx.violation('function-attributes-not-tagged-values', {'def': head}, abort=False)
           if m.getName() != 'meth' or m.getDoc() != 'doc of meth':
               ctx.violation('name-or-doc', {'def': head}, abort=False)
+          # descriptions are independent objects: tagging one neither writes to the described function nor shows in
+          # another description of it; the mapping one description hands out is not shared with other descriptions
+          m_b = fromFunction(f)
+          m.setTaggedValue('zz_added_to_description', 1)
+          ctx.ev(2)
+          if 'zz_added_to_description' in vars(f) or m_b.queryTaggedValue('zz_added_to_description') is not None:
+              ctx.violation('tagging-a-description-leaks', {'def': head, 'into': 'function' if 'zz_added_to_description' in vars(f) else 'other description'}, abort=False)
+          info_a = m.getSignatureInfo()
+          if isinstance(info_a['optional'], dict):
+              info_a['optional']['zz_poison'] = 1
+          if isinstance(getattr(m, 'optional', None), dict):
+              m.optional['zz_poison2'] = 1
+          g2, head2 = mkfunc('meth2', vname=vname, kname=kname, **g)
+          opt_b = fromFunction(g2).getSignatureInfo()['optional']
+          if 'zz_poison' in opt_b or 'zz_poison2' in opt_b or 'zz_poison' in m_b.getSignatureInfo()['optional']:
+              ctx.violation('optional-mapping-shared-between-descriptions', {'def': head}, abort=False)
           I = InterfaceClass('IBody', (Interface,), {'meth': f}, __module__=util.fresh_module())
           check_desc(ctx, I['meth'], exp, 'interface-body', head)
           # (2) bound method: leading self removed
